@@ -5,8 +5,10 @@
 //   mutate(s, op)          op 0 "few" (stays in the smallest mode), 1 "many" (crosses every growth / compaction /
 //                          mode threshold of the small configuration), 2 "alt" (a different stream: duplicates,
 //                          descending, weights, intermediate mode)
-//   merge / merge_move     the family's merge by const reference / by rvalue (through the family's union
-//                          operator where the sketch itself has no merge)
+//   merge / merge_move     the family's merge by lvalue reference (template: the operand arrives as a NON-CONST lvalue for
+//                          MergeRef and as a const lvalue for MergeCRef, and is passed on with that constness) / by rvalue;
+//                          through the family's set operators where the sketch itself has no merge: union, and for the
+//                          theta / tuple types also intersection (the by-reference operand is its FIRST update) and a-not-b
 //   reset(s, aid)          reset() where the class has one, otherwise assignment of a freshly constructed object
 //   serialize(s)           both serialized forms (bytes and stream) - the Serialize call of the alphabet
 //   image(s, out)          the digest input: the serialized image(s) of the object, i.e. its full projection
@@ -29,6 +31,7 @@
 #include "tuple_sketch.hpp"
 #include "tuple_union.hpp"
 #include "tuple_intersection.hpp"
+#include "tuple_a_not_b.hpp"
 #include "quantiles_sketch.hpp"
 #include "var_opt_sketch.hpp"
 #include "var_opt_union.hpp"
@@ -71,9 +74,25 @@ struct ThetaAd {
     for (int v : stream(op, 150)) s.update((uint64_t)v);
     if (op == 2) s.trim();
   }
-  // an update sketch has no merge: the pair goes through a union (lvalue / rvalue update); the target keeps its content
-  static void merge(S& a, const S& b) { U u = typename U::builder(a.get_allocator()).set_lg_k(5).build(); u.update(a); u.update(b); auto r = u.get_result(); (void)r.get_estimate(); }
-  static void merge_move(S& a, S&& b) { U u = typename U::builder(a.get_allocator()).set_lg_k(5).build(); u.update(a); u.update(std::move(b)); auto r = u.get_result(false); (void)r.get_estimate(); }
+  // an update sketch has no merge: the pair goes through union, intersection (operand = first update) and a-not-b; the
+  // target keeps its content, the operand must keep its own
+  typedef theta_intersection_alloc<A> I;
+  typedef theta_a_not_b_alloc<A> N;
+  template<class B> static void merge(S& a, B& b) {
+    A al = a.get_allocator();
+    I x(DEFAULT_SEED, al); x.update(b); x.update(a); auto in = x.get_result();
+    N n(DEFAULT_SEED, al); auto df = n.compute(a, b);
+    U u = typename U::builder(al).set_lg_k(5).build(); u.update(a); u.update(b); u.update(df); u.update(in);
+    auto r = u.get_result(); (void)r.get_estimate();
+  }
+  static void merge_move(S& a, S&& b) {
+    A al = a.get_allocator();
+    S bc(b);
+    I x(DEFAULT_SEED, al); x.update(std::move(bc)); x.update(a); auto in = x.get_result(false);
+    N n(DEFAULT_SEED, al); auto df = n.compute(S(a), b, false);
+    U u = typename U::builder(al).set_lg_k(5).build(); u.update(a); u.update(std::move(df)); u.update(std::move(in)); u.update(std::move(b));
+    auto r = u.get_result(false); (void)r.get_estimate();
+  }
   static void reset(S& s, int) { s.reset(); }
   static void serialize(const S& s) { auto c = s.compact(); auto b = c.serialize(); std::stringstream ss; c.serialize(ss); auto z = c.serialize_compressed(); }
   static void image(const S& s, Bytes& out) {
@@ -105,8 +124,23 @@ struct ThetaSetAd {
       s = u.get_result(op == 0);
     }
   }
-  static void merge(S& t, const S& b) { U u = typename U::builder(t.get_allocator()).set_lg_k(5).build(); u.update(t); u.update(b); t = u.get_result(); }
-  static void merge_move(S& t, S&& b) { U u = typename U::builder(t.get_allocator()).set_lg_k(5).build(); u.update(t); u.update(std::move(b)); t = u.get_result(); }
+  // t := (t \ b) u (b n t) u b  (= t u b), every operator used once; the by-reference operand b is the FIRST update of the
+  // intersection and the second argument of a-not-b, and must come out unchanged
+  template<class B> static void merge(S& t, B& b) {
+    A al = t.get_allocator();
+    I x(DEFAULT_SEED, al); x.update(b); x.update(t); S in = x.get_result();
+    N n(DEFAULT_SEED, al); S df = n.compute(t, b);
+    U u = typename U::builder(al).set_lg_k(5).build(); u.update(df); u.update(in); u.update(b);
+    t = u.get_result();
+  }
+  static void merge_move(S& t, S&& b) {
+    A al = t.get_allocator();
+    S bc(b);
+    I x(DEFAULT_SEED, al); x.update(std::move(bc)); x.update(t); S in = x.get_result();
+    N n(DEFAULT_SEED, al); S df = n.compute(std::move(t), b);
+    U u = typename U::builder(al).set_lg_k(5).build(); u.update(std::move(df)); u.update(std::move(in)); u.update(std::move(b));
+    t = u.get_result();
+  }
   static void reset(S& s, int aid) { A a(aid); I x(DEFAULT_SEED, a); x.update(s); x.update(input(a, 0).compact()); N n(DEFAULT_SEED, a); s = n.compute(x.get_result(), s); }
   static void serialize(const S& s) { auto b = s.serialize(); std::stringstream ss; s.serialize(ss); auto z = s.serialize_compressed(); }
   static void image(const S& s, Bytes& out) { put(out, s.serialize()); put_pod(out, (int)s.is_ordered()); }
@@ -123,7 +157,7 @@ struct KllAd {
     for (size_t n = 0; n < v.size(); n++) { if (n % 2) { probe_item x(v[n]); s.update(x); } else s.update(probe_item(v[n])); }
     if (op == 2) (void)s.get_rank(probe_item(1990));      // builds the cached sorted view
   }
-  static void merge(S& a, const S& b) { a.merge(b); }
+  template<class B> static void merge(S& a, B& b) { a.merge(b); }
   static void merge_move(S& a, S&& b) { a.merge(std::move(b)); }
   static void reset(S& s, int aid) { s = S(8, probe_less(), A(aid)); }
   static void serialize(const S& s) { auto b = s.serialize(0, probe_serde()); std::stringstream ss; s.serialize(ss, probe_serde()); }
@@ -141,7 +175,7 @@ struct ReqAd {
     for (size_t n = 0; n < v.size(); n++) { if (n % 2) { probe_item x(v[n]); s.update(x); } else s.update(probe_item(v[n])); }
     if (op == 2) (void)s.get_quantile(0.5);               // builds the cached sorted view (get_rank does not)
   }
-  static void merge(S& a, const S& b) { a.merge(b); }
+  template<class B> static void merge(S& a, B& b) { a.merge(b); }
   static void merge_move(S& a, S&& b) { a.merge(std::move(b)); }
   static void reset(S& s, int aid) { s = S(4, true, probe_less(), A(aid)); }
   static void serialize(const S& s) { auto b = s.serialize(0, probe_serde()); std::stringstream ss; s.serialize(ss, probe_serde()); }
@@ -158,7 +192,7 @@ struct FiAd {
     std::vector<int> v = stream(op, 60);
     for (size_t n = 0; n < v.size(); n++) { if (n % 2) { probe_item x(v[n]); s.update(x, 1 + n % 5); } else s.update(probe_item(v[n]), 1 + n % 3); }
   }
-  static void merge(S& a, const S& b) { a.merge(b); }
+  template<class B> static void merge(S& a, B& b) { a.merge(b); }
   static void merge_move(S& a, S&& b) { a.merge(std::move(b)); }
   static void reset(S& s, int aid) { s = S(4, 3, probe_equal(), A(aid)); }
   static void serialize(const S& s) { auto b = s.serialize(0, probe_serde()); std::stringstream ss; s.serialize(ss, probe_serde()); }
@@ -175,7 +209,7 @@ struct HllAd {
   static const char* name() { return "hll"; }
   static void construct(void* p, int aid) { new (p) S(9, HLL_4, false, A(aid)); }
   static void mutate(S& s, int op) { for (int v : stream(op == 2 ? 1 : op, op == 2 ? 40 : 600)) s.update((uint64_t)v + (op == 2 ? 7000000 : 0)); }
-  static void merge(S& a, const S& b) { U u(9, A(9)); u.update(a); u.update(b); a = u.get_result(HLL_4); }
+  template<class B> static void merge(S& a, B& b) { U u(9, A(9)); u.update(a); u.update(b); a = u.get_result(HLL_4); }
   static void merge_move(S& a, S&& b) { U u(9, A(9)); u.update(a); u.update(std::move(b)); a = u.get_result(HLL_4); }
   static void reset(S& s, int) { s.reset(); }
   static void serialize(const S& s) { auto b = s.serialize_compact(); auto c = s.serialize_updatable(); std::stringstream ss; s.serialize_compact(ss); s.serialize_updatable(ss); }
@@ -189,14 +223,23 @@ struct HllUnionAd {
   typedef hll_sketch_alloc<A> SK;
   static const char* name() { return "hllunion"; }
   static void construct(void* p, int aid) { new (p) S(9, A(aid)); }
+  // inputs cover the ownership-transfer path of update(&&) (HLL_8 input, lg_k <= lg_max_k, in HLL mode or with lg_k == lg_max_k,
+  // into a still empty union) as well as the general path (other types, larger / smaller lg_k, lvalues, non-empty union)
+  static SK input(uint8_t lg_k, target_hll_type t, int n, int salt) { SK k(lg_k, t, false, A(8)); for (int v : stream(1, n)) k.update((uint64_t)v + salt); return k; }
   static void mutate(S& s, int op) {
-    if (op == 0) { for (int v : stream(0, 0)) s.update((uint64_t)v); return; }
-    SK k(op == 1 ? 10 : 8, op == 1 ? HLL_6 : HLL_4, false, A(8));   // hll classes expose no get_allocator(): the operand sketch gets its own user-supplied allocator instance
-    for (int v : stream(1, op == 1 ? 900 : 40)) k.update((uint64_t)v + op);
-    if (op == 1) s.update(k); else s.update(std::move(k));
+    if (op == 0) {            // LIST-mode HLL_8 sketch with lg_k == lg_max_k by rvalue, then single items
+      s.update(input(9, HLL_8, 3, 0));
+      for (int v : stream(0, 0)) s.update((uint64_t)v);
+    } else if (op == 1) {     // HLL-mode HLL_8 sketch with smaller lg_k by rvalue, then a larger HLL_6 sketch by lvalue
+      s.update(input(8, HLL_8, 900, 1));
+      SK k = input(10, HLL_6, 900, 2); s.update(k);
+    } else {                  // SET-mode HLL_4 by rvalue, then SET-mode HLL_8 with lg_k == lg_max_k by non-const lvalue
+      s.update(input(8, HLL_4, 40, 3));
+      SK k = input(9, HLL_8, 40, 4); s.update(k);
+    }
   }
-  static void merge(S& a, const S& b) { SK r = b.get_result(HLL_8); a.update(r); }
-  static void merge_move(S& a, S&& b) { a.update(b.get_result(HLL_4)); S sink(std::move(b)); }
+  template<class B> static void merge(S& a, B& b) { SK r = b.get_result(HLL_8); a.update(r); }
+  static void merge_move(S& a, S&& b) { a.update(b.get_result(HLL_8)); S sink(std::move(b)); }
   static void reset(S& s, int) { s.reset(); }
   static void serialize(const S& s) { auto r = s.get_result(HLL_6); auto b = r.serialize_compact(); }
   static void image(const S& s, Bytes& out) { auto r = s.get_result(HLL_8); put(out, r.serialize_updatable()); }
@@ -210,7 +253,7 @@ struct CpcAd {
   static const char* name() { return "cpc"; }
   static void construct(void* p, int aid) { new (p) S(6, DEFAULT_SEED, A(aid)); }
   static void mutate(S& s, int op) { for (int v : stream(op == 2 ? 1 : op, op == 2 ? 45 : 500)) s.update((uint64_t)v + (op == 2 ? 7000000 : 0)); }
-  static void merge(S& a, const S& b) { U u(6, DEFAULT_SEED, a.get_allocator()); u.update(a); u.update(b); a = u.get_result(); }
+  template<class B> static void merge(S& a, B& b) { U u(6, DEFAULT_SEED, a.get_allocator()); u.update(a); u.update(b); a = u.get_result(); }
   static void merge_move(S& a, S&& b) { U u(6, DEFAULT_SEED, a.get_allocator()); u.update(a); u.update(std::move(b)); a = u.get_result(); }
   static void reset(S& s, int aid) { s = S(6, DEFAULT_SEED, A(aid)); }
   static void serialize(const S& s) { auto b = s.serialize(); std::stringstream ss; s.serialize(ss); }
@@ -230,7 +273,7 @@ struct CpcUnionAd {
     for (int v : stream(op == 0 ? 0 : 1, op == 1 ? 700 : 45)) k.update((uint64_t)v + op);
     if (op == 1) s.update(k); else s.update(std::move(k));
   }
-  static void merge(S& a, const S& b) { SK r = b.get_result(); a.update(r); }
+  template<class B> static void merge(S& a, B& b) { SK r = b.get_result(); a.update(r); }
   static void merge_move(S& a, S&& b) { a.update(b.get_result()); S sink(std::move(b)); }
   static void reset(S& s, int aid) { s = S(6, DEFAULT_SEED, A(aid)); }
   static void serialize(const S& s) { auto r = s.get_result(); auto b = r.serialize(); }
@@ -256,8 +299,24 @@ struct TupleAd {
     for (size_t n = 0; n < v.size(); n++) s.update((uint64_t)v[n], (int)(1 + n % 3));
     if (op == 2) s.trim();
   }
-  static void merge(S& a, const S& b) { U u = typename U::builder(probe_union_policy(), a.get_allocator()).set_lg_k(5).build(); u.update(a); u.update(b); auto r = u.get_result(); (void)r.get_estimate(); }
-  static void merge_move(S& a, S&& b) { U u = typename U::builder(probe_union_policy(), a.get_allocator()).set_lg_k(5).build(); u.update(a); u.update(std::move(b)); auto r = u.get_result(false); (void)r.get_estimate(); }
+  typedef tuple_intersection<probe_item, probe_union_policy, A> I;
+  typedef tuple_a_not_b<probe_item, A> N;
+  // as for theta: union, intersection (operand = first update) and a-not-b; target and operand keep their content
+  template<class B> static void merge(S& a, B& b) {
+    A al = a.get_allocator();
+    I x(DEFAULT_SEED, probe_union_policy(), al); x.update(b); x.update(a); auto in = x.get_result();
+    N n(DEFAULT_SEED, al); auto df = n.compute(a, b);
+    U u = typename U::builder(probe_union_policy(), al).set_lg_k(5).build(); u.update(a); u.update(b); u.update(df); u.update(in);
+    auto r = u.get_result(); (void)r.get_estimate();
+  }
+  static void merge_move(S& a, S&& b) {
+    A al = a.get_allocator();
+    S bc(b);
+    I x(DEFAULT_SEED, probe_union_policy(), al); x.update(std::move(bc)); x.update(a); auto in = x.get_result(false);
+    N n(DEFAULT_SEED, al); auto df = n.compute(S(a), b, false);
+    U u = typename U::builder(probe_union_policy(), al).set_lg_k(5).build(); u.update(a); u.update(std::move(df)); u.update(std::move(in)); u.update(std::move(b));
+    auto r = u.get_result(false); (void)r.get_estimate();
+  }
   static void reset(S& s, int) { s.reset(); }
   static void serialize(const S& s) { auto c = s.compact(); auto b = c.serialize(0, probe_serde()); std::stringstream ss; c.serialize(ss, probe_serde()); }
   static void image(const S& s, Bytes& out) { put(out, s.compact(true).serialize(0, probe_serde())); put_pod(out, s.get_theta64()); put_pod(out, s.get_num_retained()); }
@@ -279,8 +338,23 @@ struct TupleSetAd {
     if (op == 2) { I x(DEFAULT_SEED, probe_union_policy(), a); x.update(u.get_result()); x.update(input(a, 1).compact()); s = x.get_result(); }
     else s = u.get_result(op == 0);
   }
-  static void merge(S& t, const S& b) { U u = typename U::builder(probe_union_policy(), t.get_allocator()).set_lg_k(5).build(); u.update(t); u.update(b); t = u.get_result(); }
-  static void merge_move(S& t, S&& b) { U u = typename U::builder(probe_union_policy(), t.get_allocator()).set_lg_k(5).build(); u.update(t); u.update(std::move(b)); t = u.get_result(); }
+  typedef tuple_a_not_b<probe_item, A> N;
+  // t := (t \ b) u (b n t) u b, every operator once; the by-reference operand b is the FIRST update of the intersection
+  template<class B> static void merge(S& t, B& b) {
+    A al = t.get_allocator();
+    I x(DEFAULT_SEED, probe_union_policy(), al); x.update(b); x.update(t); S in = x.get_result();
+    N n(DEFAULT_SEED, al); S df = n.compute(t, b);
+    U u = typename U::builder(probe_union_policy(), al).set_lg_k(5).build(); u.update(df); u.update(in); u.update(b);
+    t = u.get_result();
+  }
+  static void merge_move(S& t, S&& b) {
+    A al = t.get_allocator();
+    S bc(b);
+    I x(DEFAULT_SEED, probe_union_policy(), al); x.update(std::move(bc)); x.update(t); S in = x.get_result();
+    N n(DEFAULT_SEED, al); S df = n.compute(std::move(t), b);
+    U u = typename U::builder(probe_union_policy(), al).set_lg_k(5).build(); u.update(std::move(df)); u.update(std::move(in)); u.update(std::move(b));
+    t = u.get_result();
+  }
   static void reset(S& s, int aid) { A a(aid); UP u = typename UP::builder(probe_tuple_policy(), a).set_lg_k(5).build(); s = u.compact(); }
   static void serialize(const S& s) { auto b = s.serialize(0, probe_serde()); std::stringstream ss; s.serialize(ss, probe_serde()); }
   static void image(const S& s, Bytes& out) { put(out, s.serialize(0, probe_serde())); put_pod(out, (int)s.is_ordered()); }
@@ -297,7 +371,7 @@ struct QuantAd {
     for (size_t n = 0; n < v.size(); n++) { if (n % 2) { probe_item x(v[n]); s.update(x); } else s.update(probe_item(v[n])); }
     if (op == 2) (void)s.get_rank(probe_item(1990));
   }
-  static void merge(S& a, const S& b) { a.merge(b); }
+  template<class B> static void merge(S& a, B& b) { a.merge(b); }
   static void merge_move(S& a, S&& b) { a.merge(std::move(b)); }
   static void reset(S& s, int aid) { s = S(4, probe_less(), A(aid)); }
   static void serialize(const S& s) { auto b = s.serialize(0, probe_serde()); std::stringstream ss; s.serialize(ss, probe_serde()); }
@@ -315,7 +389,7 @@ struct VarOptAd {
     std::vector<int> v = stream(op, 40);
     for (size_t n = 0; n < v.size(); n++) { double w = op == 2 ? 1.0 + 50.0 * (n % 4 == 0) : 1.0 + n % 7; if (n % 2) { probe_item x(v[n]); s.update(x, w); } else s.update(probe_item(v[n]), w); }
   }
-  static void merge(S& a, const S& b) { U u(8, A(9)); u.update(a); u.update(b); a = u.get_result(); }
+  template<class B> static void merge(S& a, B& b) { U u(8, A(9)); u.update(a); u.update(b); a = u.get_result(); }
   static void merge_move(S& a, S&& b) { U u(8, A(9)); u.update(a); u.update(std::move(b)); a = u.get_result(); }
   static void reset(S& s, int) { s.reset(); }
   static void serialize(const S& s) { auto b = s.serialize(0, probe_serde()); std::stringstream ss; s.serialize(ss, probe_serde()); }
@@ -342,7 +416,7 @@ struct VarOptUnionAd {
     for (size_t n = 0; n < v.size(); n++) k.update(probe_item(v[n]), op == 2 ? 1.0 + 50.0 * (n % 4 == 0) : 1.0 + n % 7);
     if (op == 1) s.update(k); else s.update(std::move(k));
   }
-  static void merge(S& a, const S& b) { SK r = b.get_result(); a.update(r); }
+  template<class B> static void merge(S& a, B& b) { SK r = b.get_result(); a.update(r); }
   static void merge_move(S& a, S&& b) { a.update(b.get_result()); S sink(std::move(b)); }
   static void reset(S& s, int) { s.reset(); }
   static void serialize(const S& s) { auto b = s.serialize(0, probe_serde()); std::stringstream ss; s.serialize(ss, probe_serde()); }
@@ -359,7 +433,7 @@ struct EbppsAd {
     std::vector<int> v = stream(op, 40);
     for (size_t n = 0; n < v.size(); n++) { double w = op == 2 ? 1.0 + 20.0 * (n % 5 == 0) : 1.0 + n % 3; if (n % 2) { probe_item x(v[n]); s.update(x, w); } else s.update(probe_item(v[n]), w); }
   }
-  static void merge(S& a, const S& b) { a.merge(b); }
+  template<class B> static void merge(S& a, B& b) { a.merge(b); }
   static void merge_move(S& a, S&& b) { a.merge(std::move(b)); }
   static void reset(S& s, int) { s.reset(); }
   static void serialize(const S& s) { auto b = s.serialize(0, probe_serde()); std::stringstream ss; s.serialize(ss, probe_serde()); }
@@ -377,7 +451,7 @@ struct BloomAd {
     for (int v : stream(op, 60)) s.update((uint64_t)v);
     if (op == 2) { S t = make(8); for (int v : stream(1, 60)) t.update((uint64_t)v); s.intersect(t); s.invert(); }
   }
-  static void merge(S& a, const S& b) { a.union_with(b); }
+  template<class B> static void merge(S& a, B& b) { a.union_with(b); }
   static void merge_move(S& a, S&& b) { a.union_with(b); S sink(std::move(b)); }
   static void reset(S& s, int) { s.reset(); }
   static void serialize(const S& s) { auto b = s.serialize(); std::stringstream ss; s.serialize(ss); }
@@ -391,7 +465,7 @@ struct CountMinAd {
   static const char* name() { return "countmin"; }
   static void construct(void* p, int aid) { new (p) S(3, 16, DEFAULT_SEED, A(aid)); }
   static void mutate(S& s, int op) { std::vector<int> v = stream(op, 60); for (size_t n = 0; n < v.size(); n++) s.update((uint64_t)v[n], (uint64_t)(1 + n % 4)); }
-  static void merge(S& a, const S& b) { a.merge(b); }
+  template<class B> static void merge(S& a, B& b) { a.merge(b); }
   static void merge_move(S& a, S&& b) { a.merge(b); S sink(std::move(b)); }
   static void reset(S& s, int aid) { s = S(3, 16, DEFAULT_SEED, A(aid)); }
   static void serialize(const S& s) { auto b = s.serialize(); std::stringstream ss; s.serialize(ss); }
@@ -405,7 +479,7 @@ struct TDigestAd {
   static const char* name() { return "tdigest"; }
   static void construct(void* p, int aid) { new (p) S(10, A(aid)); }
   static void mutate(S& s, int op) { for (int v : stream(op, 300)) s.update((double)v); if (op == 2) (void)s.get_rank(1990.0); }
-  static void merge(S& a, const S& b) { a.merge(b); }
+  template<class B> static void merge(S& a, B& b) { a.merge(b); }
   static void merge_move(S& a, S&& b) { a.merge(b); S sink(std::move(b)); }
   static void reset(S& s, int aid) { s = S(10, A(aid)); }
   static void serialize(const S& s) { auto b = s.serialize(0, true); std::stringstream ss; s.serialize(ss, false); }
@@ -433,7 +507,7 @@ struct DensityAd {
       if (n % 2) s.update(pt); else s.update(std::move(pt));
     }
   }
-  static void merge(S& a, const S& b) { a.merge(b); }
+  template<class B> static void merge(S& a, B& b) { a.merge(b); }
   static void merge_move(S& a, S&& b) { a.merge(std::move(b)); }
   static void reset(S& s, int aid) { s = S(4, 2, life_kernel(), A(aid)); }
   static void serialize(const S& s) { auto b = s.serialize(); std::stringstream ss; s.serialize(ss); }
